@@ -48,9 +48,38 @@ theorem Contig.snoc {l : List Token} {t : Token} (h : Contig l) (hl : ∀ a, l.g
       apply hl
       simpa [List.getLast?_cons_cons] using hx
 
+/-- the source range of a text chunk is as long as the chunk's bytes -/
+def TextLen (t : Token) : Prop :=
+  match t with
+  | .text raw _ _ s => s.end = s.start + raw.length
+  | _ => True
+
+/-- not a text chunk -/
+def NotText (t : Token) : Prop := ∀ b tt l s, t ≠ .text b tt l s
+
+theorem NotText.notOpen {t : Token} (h : NotText t) : ¬ OpenText t := fun ⟨b, tt, s, hh⟩ => h b tt false s hh
+
+theorem NotText.textLen {t : Token} (h : NotText t) : TextLen t := by
+  unfold TextLen
+  split
+  · rename_i raw a b s; exact absurd rfl (h raw a b s)
+  · trivial
+
+/-- what is proved of the list of tokens handed to the controller -/
+def Good (l : List Token) : Prop := Contig l ∧ ∀ t ∈ l, TextLen t
+
+theorem Good.snoc {l : List Token} {t : Token} (h : Good l) (hl : ∀ a, l.getLast? = some a → Link a t)
+    (ht : TextLen t) : Good (l ++ [t]) := by
+  refine ⟨h.1.snoc hl, ?_⟩
+  intro x hx
+  rw [List.mem_append] at hx
+  rcases hx with hx | hx
+  · exact h.2 x hx
+  · simp only [List.mem_singleton] at hx; subst hx; exact ht
+
 /-- sink-side invariant -/
 structure TInv (log : γ → List Token) (d : Disp γ) : Prop where
-  contig : Contig (log d.ctl)
+  contig : Good (log d.ctl)
   open_ : d.textPending = true → d.flags.text = true ∧
     ∃ b tt s, (log d.ctl).getLast? = some (.text b tt false s) ∧ s.end = d.textPendingStart
   closed : d.textPending = false → ∀ a, (log d.ctl).getLast? = some a → ¬ OpenText a
@@ -78,9 +107,10 @@ variable {ctl : Controller γ} {log : γ → List Token} {pc : Nat} {inp : Bytes
 
 /-- appending a token that closes / does not open a text node -/
 theorem TInv.append_closed {d d' : Disp γ} {t : Token} (h : TInv log d) (hlog : log d'.ctl = log d.ctl ++ [t])
-    (hlink : ∀ a, (log d.ctl).getLast? = some a → Link a t) (hnot : ¬ OpenText t) (hp : d'.textPending = false) :
+    (hlink : ∀ a, (log d.ctl).getLast? = some a → Link a t) (hnot : ¬ OpenText t) (hlen : TextLen t)
+    (hp : d'.textPending = false) :
     TInv log d' := by
-  refine ⟨by rw [hlog]; exact h.contig.snoc hlink, fun hp' => by rw [hp] at hp'; simp at hp', ?_⟩
+  refine ⟨by rw [hlog]; exact h.contig.snoc hlink hlen, fun hp' => by rw [hp] at hp'; simp at hp', ?_⟩
   intro _ a ha
   rw [hlog, List.getLast?_append] at ha
   simp at ha
@@ -130,6 +160,7 @@ theorem flushPendingText_T (hlog : Logging ctl log) (d : Disp γ) (h : TInv log 
       simp only [Link]
       exact hend.symm
     · intro ⟨b', tt', s', hh⟩; simp at hh
+    · simp [TextLen]
     · rw [t3]
   · rename_i hp
     exact ⟨h, by simpa using hp, rfl⟩
@@ -145,7 +176,7 @@ theorem emitChunkBefore_frame {d d' : Disp γ} {raw : Range} (he : d.emitChunkBe
     refine ⟨?_, ?_, ?_, ?_, ?_⟩ <;> (split <;> rfl)
 
 /-- a non-text token on a closed node -/
-theorem emitToken_T (hlog : Logging ctl log) (d : Disp γ) (raw : Range) (tok : Token) (hnot : ¬ OpenText tok)
+theorem emitToken_T (hlog : Logging ctl log) (d : Disp γ) (raw : Range) (tok : Token) (hnot : NotText tok)
     (hnp : d.textPending = false) (h : TInv log d) :
     OkD (fun d' => TInv log d' ∧ d'.textPending = false) (d.emitToken ctl inp raw tok) := by
   unfold Disp.emitToken
@@ -169,20 +200,21 @@ theorem emitToken_T (hlog : Logging ctl log) (d : Disp γ) (raw : Range) (tok : 
       · rw [f1]; simp only; rw [t1, e1]
       · intro a' ha'
         exact Link.of_not_open (h.closed hnp a' ha')
-      · exact hnot
+      · exact hnot.notOpen
+      · exact hnot.textLen
       · exact hp'
 
 theorem tagToToken_notOpen {f f' : Flags} {lx : TagLexeme} {tok : Token}
-    (h : tagToToken f inp lx = some (f', some tok)) : ¬ OpenText tok := by
+    (h : tagToToken f inp lx = some (f', some tok)) : NotText tok := by
   unfold tagToToken at h
-  intro ⟨b, tt, s, hh⟩
+  intro b tt l s hh
   subst hh
   (repeat' split at h) <;> simp_all
 
 theorem nonTagToToken_notOpen {f : Flags} {lx : NonTagLexeme} {tok : Token}
-    (h : nonTagToToken f inp lx = some (some tok)) : ¬ OpenText tok := by
+    (h : nonTagToToken f inp lx = some (some tok)) : NotText tok := by
   unfold nonTagToToken at h
-  intro ⟨b, tt, s, hh⟩
+  intro b tt l s hh
   subst hh
   simp only at h
   (repeat' split at h) <;> simp_all
@@ -200,6 +232,13 @@ theorem produceTag_T (hlog : Logging ctl log) (d : Disp γ) (lx : TagLexeme) (hn
       have hno := tagToToken_notOpen (inp := inp) (f := d.flags) (f' := ft.1) (lx := lx) (tok := tok) (by rw [hft, ← htok])
       exact emitToken_T hlog { d with flags := ft.1 } lx.raw tok hno hnp
         (h.frame rfl rfl rfl (fun hp => by rw [hnp] at hp; simp at hp))
+
+theorem textLen_of_slice {rawb : Bytes} {ls e : Nat} {tt : TextType} {l : Bool}
+    (h : checkedSlice inp ⟨ls, e⟩ = some rawb) : TextLen (.text rawb tt l (srcOf pc ⟨ls, e⟩)) := by
+  obtain ⟨h1, h2, h3⟩ := checkedSlice_some h
+  subst h3
+  simp only [TextLen, srcOf, slice, List.length_drop, List.length_take] at h1 h2 ⊢
+  omega
 
 /-- a text lexeme adjacent to the open node (or opening one) -/
 theorem produceText_T (hlog : Logging ctl log) (d : Disp γ) (ls e : Nat) (o : Option NonTagOutline) (tt : TextType)
@@ -228,7 +267,7 @@ theorem produceText_T (hlog : Logging ctl log) (d : Disp γ) (ls e : Nat) (o : O
           rw [t1]
           simp only
           rw [e1]
-          apply h.contig.snoc
+          refine h.contig.snoc ?_ (textLen_of_slice hraw)
           intro a' ha'
           by_cases hp : d.textPending = true
           · obtain ⟨_, b, tt', s, hlast, hend⟩ := h.open_ hp
@@ -376,22 +415,22 @@ theorem endTagHint_T (hlog : Logging ctl log) (name : LocalName) (d : Disp γ) (
 /-! ### The error side: whatever the outcome, the tokens handed over so far are contiguous -/
 
 theorem contig_bind {α β : Type} {Q : Disp γ → Prop} {r : DRes γ α} {f : Disp γ → α → DRes γ β}
-    (hok : OkD Q r) (hc : Contig (log r.1.ctl)) (hf : ∀ d a, Q d → Contig (log (f d a).1.ctl)) :
-    Contig (log (DRes.bind r f).1.ctl) := by
+    (hok : OkD Q r) (hc : Good (log r.1.ctl)) (hf : ∀ d a, Q d → Good (log (f d a).1.ctl)) :
+    Good (log (DRes.bind r f).1.ctl) := by
   unfold DRes.bind
   split
   · exact hc
   · rename_i a ha; exact hf _ _ (hok a ha)
 
 theorem flushPendingText_C (hlog : Logging ctl log) (d : Disp γ) (h : TInv log d) :
-    Contig (log (d.flushPendingText ctl).1.ctl) := by
+    Good (log (d.flushPendingText ctl).1.ctl) := by
   unfold Disp.flushPendingText
   split
   · rename_i hp
     obtain ⟨_, b, tt, s, hlast, hend⟩ := h.open_ hp
     rw [(tokenProduced_log hlog _ _).1]
-    show Contig (log d.ctl ++ [_])
-    apply h.contig.snoc
+    show Good (log d.ctl ++ [_])
+    refine h.contig.snoc ?_ (by simp [TextLen])
     intro a' ha'
     rw [hlast] at ha'
     simp only [Option.some.injEq] at ha'
@@ -403,17 +442,17 @@ theorem flushPendingText_C (hlog : Logging ctl log) (d : Disp γ) (h : TInv log 
 theorem flushEncodingChange_ctl (d0 : Disp γ) : d0.flushEncodingChange.ctl = d0.ctl := by
   unfold Disp.flushEncodingChange; (repeat' split) <;> simp
 
-theorem emitToken_C (hlog : Logging ctl log) (d : Disp γ) (raw : Range) (tok : Token)
-    (hnp : d.textPending = false) (h : TInv log d) : Contig (log (d.emitToken ctl inp raw tok).1.ctl) := by
+theorem emitToken_C (hlog : Logging ctl log) (d : Disp γ) (raw : Range) (tok : Token) (hnot : NotText tok)
+    (hnp : d.textPending = false) (h : TInv log d) : Good (log (d.emitToken ctl inp raw tok).1.ctl) := by
   unfold Disp.emitToken
   cases he : d.emitChunkBefore inp raw with
   | error e => simp only [DRes.ofExcept, DRes.bind]; exact h.contig
   | ok d1 =>
     obtain ⟨e1, _⟩ := emitChunkBefore_frame he
     simp only [DRes.ofExcept, DRes.bind]
-    have hc : Contig (log (Disp.tokenProduced ctl d1 tok).1.ctl) := by
+    have hc : Good (log (Disp.tokenProduced ctl d1 tok).1.ctl) := by
       rw [(tokenProduced_log hlog d1 tok).1, e1]
-      exact h.contig.snoc (fun a' ha' => Link.of_not_open (h.closed hnp a' ha'))
+      exact h.contig.snoc (fun a' ha' => Link.of_not_open (h.closed hnp a' ha')) hnot.textLen
     cases hres : (Disp.tokenProduced ctl d1 tok).2 with
     | error e => exact hc
     | ok u =>
@@ -422,19 +461,21 @@ theorem emitToken_C (hlog : Logging ctl log) (d : Disp γ) (raw : Range) (tok : 
       exact hc
 
 theorem produceTag_C (hlog : Logging ctl log) (d : Disp γ) (lx : TagLexeme) (hnp : d.textPending = false)
-    (h : TInv log d) : Contig (log (d.produceTag ctl inp lx).1.ctl) := by
+    (h : TInv log d) : Good (log (d.produceTag ctl inp lx).1.ctl) := by
   unfold Disp.produceTag
   split
   · exact h.contig
   · rename_i ft hft
     split
     · exact h.contig
-    · exact emitToken_C hlog { d with flags := ft.1 } lx.raw _ hnp
+    · rename_i tok htok
+      exact emitToken_C hlog { d with flags := ft.1 } lx.raw _
+        (tagToToken_notOpen (inp := inp) (f := d.flags) (f' := ft.1) (lx := lx) (tok := tok) (by rw [hft, ← htok])) hnp
         (h.frame rfl rfl rfl (fun hp => by rw [hnp] at hp; simp at hp))
 
 theorem produceText_C (hlog : Logging ctl log) (d : Disp γ) (ls e : Nat) (o : Option NonTagOutline) (tt : TextType)
     (hadj : d.textPending = true → pc + ls = d.textPendingStart) (h : TInv log d) :
-    Contig (log (d.produceText ctl inp ⟨pc, ⟨ls, e⟩, o⟩ tt).1.ctl) := by
+    Good (log (d.produceText ctl inp ⟨pc, ⟨ls, e⟩, o⟩ tt).1.ctl) := by
   unfold Disp.produceText
   simp only
   split
@@ -445,12 +486,12 @@ theorem produceText_C (hlog : Logging ctl log) (d : Disp γ) (ls e : Nat) (o : O
     | ok d1 =>
       obtain ⟨e1, _⟩ := emitChunkBefore_frame he
       simp only [DRes.ofExcept, DRes.bind]
-      have hc : Contig (log (Disp.tokenProduced ctl { d1 with lastTextType := tt }
+      have hc : Good (log (Disp.tokenProduced ctl { d1 with lastTextType := tt }
           (.text rawb tt false (srcOf pc ⟨ls, e⟩))).1.ctl) := by
         rw [(tokenProduced_log hlog _ _).1]
         simp only
         rw [e1]
-        apply h.contig.snoc
+        refine h.contig.snoc ?_ (textLen_of_slice hraw)
         intro a' ha'
         by_cases hp : d.textPending = true
         · obtain ⟨_, b, tt', s, hlast, hend⟩ := h.open_ hp
@@ -465,11 +506,11 @@ theorem produceText_C (hlog : Logging ctl log) (d : Disp γ) (ls e : Nat) (o : O
       | ok u => exact hc
 
 theorem handleNonTag_C (hlog : Logging ctl log) (ls e : Nat) (o : Option NonTagOutline) (d : Disp γ)
-    (h : TV log pc (some ls) d) : Contig (log (Disp.handleNonTag ctl inp ⟨pc, ⟨ls, e⟩, o⟩ d).1.ctl) := by
+    (h : TV log pc (some ls) d) : Good (log (Disp.handleNonTag ctl inp ⟨pc, ⟨ls, e⟩, o⟩ d).1.ctl) := by
   obtain ⟨hT, hadj⟩ := h
   simp only at hadj
   have nontext : (∀ tt, o ≠ some (.text tt)) →
-      Contig (log (Disp.handleNonTag ctl inp ⟨pc, ⟨ls, e⟩, o⟩ d).1.ctl) := by
+      Good (log (Disp.handleNonTag ctl inp ⟨pc, ⟨ls, e⟩, o⟩ d).1.ctl) := by
     intro hne
     have hnt : (⟨pc, ⟨ls, e⟩, o⟩ : NonTagLexeme).isText = false := by
       cases o with
@@ -485,7 +526,8 @@ theorem handleNonTag_C (hlog : Logging ctl log) (ls e : Nat) (o : Option NonTagO
     split
     · exact hd1.contig
     · exact hd1.contig
-    · exact emitToken_C hlog d1 ⟨ls, e⟩ _ hp1 hd1
+    · rename_i tok htok
+      exact emitToken_C hlog d1 ⟨ls, e⟩ _ (nonTagToToken_notOpen htok) hp1 hd1
   cases o with
   | none => exact nontext (by intro tt hh; simp at hh)
   | some ot =>
@@ -505,7 +547,7 @@ theorem handleNonTag_C (hlog : Logging ctl log) (ls e : Nat) (o : Option NonTagO
       · exact hT.contig
 
 theorem handleTag_C (hlog : Logging ctl log) (lx : TagLexeme) (d : Disp γ) (h : TInv log d) :
-    Contig (log (Disp.handleTag ctl inp lx d).1.ctl) := by
+    Good (log (Disp.handleTag ctl inp lx d).1.ctl) := by
   unfold Disp.handleTag
   refine contig_bind (flushPendingText_T hlog d h) (flushPendingText_C hlog d h) ?_
   intro d1 _ ⟨hd1, hp1, _⟩
@@ -520,13 +562,13 @@ theorem handleTag_C (hlog : Logging ctl log) (lx : TagLexeme) (d : Disp γ) (h :
     exact hd3.contig
 
 theorem startTagHint_C (hlog : Logging ctl log) (name : LocalName) (ns : Ns) (d : Disp γ) (h : TInv log d) :
-    Contig (log (Disp.startTagHint ctl name ns d).1.ctl) := by
+    Good (log (Disp.startTagHint ctl name ns d).1.ctl) := by
   unfold Disp.startTagHint
   dsimp only
   split <;> simp only [Disp.applyHintFlags, hlog.startTag] <;> exact h.contig
 
 theorem endTagHint_C (hlog : Logging ctl log) (name : LocalName) (d : Disp γ) (h : TInv log d) :
-    Contig (log (Disp.endTagHint ctl name d).1.ctl) := by
+    Good (log (Disp.endTagHint ctl name d).1.ctl) := by
   unfold Disp.endTagHint
   refine contig_bind (flushPendingText_T hlog d h) (flushPendingText_C hlog d h) ?_
   intro d1 _ ⟨hd1, _, _⟩
@@ -535,7 +577,7 @@ theorem endTagHint_C (hlog : Logging ctl log) (name : LocalName) (d : Disp γ) (
 
 /-- **The dispatcher's operations keep the joint invariant.** -/
 theorem dispOps_TV (hlog : Logging ctl log) :
-    OpsView (dispOps ctl) inp pc (TV (γ := γ) log pc) (fun d => Contig (log d.ctl)) where
+    OpsView (dispOps ctl) inp pc (TV (γ := γ) log pc) (fun d => Good (log d.ctl)) where
   handleNonTag := fun ls e o k hk hok => handleNonTag_T hlog ls e o k hk () hok
   handleTag := by
     intro ls e t k hk
